@@ -191,6 +191,19 @@ claim("C13",
       "machine-checked proof in Rocq (Coq 8.16, std++) over a re-labelling model + in-Coq validity check of every observed re-labelling + model/code correspondence",
       "DESIGN.md section 7, C13")
 
+claim("C20",
+      "What a theorem can carry: C20_order_sets / C20_order_dicts (the value a response decodes to does not depend on the order in "
+      "which Python wrote its sets and dictionaries - the order that varies with PYTHONHASHSEED) and C20_canonical (equal canonical "
+      "encodings <-> equal views), so comparing decoded transcripts across processes is well defined. The property itself - "
+      "independence of process, hash randomisation and wall-clock time, and the reproducible configuration hash - is a runtime "
+      "property no executable model exhibits; it is decided by cross-process runs: identical two-agent multi-episode probe sessions "
+      "(static and dynamic addresses, all playable shipped scenarios, several seeds) in separate interpreter processes with "
+      "different PYTHONHASHSEED values must give identical decoded transcripts, address maps and hashes; hashes must differ between "
+      "scenarios. Labelled partial.",
+      "Trusted: Coq kernel; std++; the cross-process harness (harness/c20_worker.py); SHA-256 opaque; only the shipped scenarios.",
+      "machine-checked proof in Rocq (Coq 8.16) of order-independence of decoding + cross-process differential runs (partial: the runtime part is not a theorem)",
+      "DESIGN.md section 7, C20")
+
 
 def main():
     hooks = {
